@@ -36,6 +36,7 @@ Fixpoint in_typeb (t : gty) (v : val) {struct t} : bool :=
   | TBytes, VBytes n s => implb n (match s with [] => true | _ => false end)
   | TTime, VTime _ => true
   | TLoc, VLoc _ => true
+  | TIface IAny, VCalls _ => false        (* not a Go value *)
   | TIface IAny, _ => true
   | TIface IError, VNil => true           (* a nil error is a documented input; nil marshalers/Stringers are not *)
   | TIface _, VOpq _ => true
@@ -180,7 +181,7 @@ Definition expected (stack : bytes) (nm : name) (t : gty) (k : bytes) (v : val) 
     match v with
     | VSlice _ l =>
         option_map (fun cs => [(($"object"), k, VCalls (norm_calls cs))])
-          (oconcat (fun x => match field_of_val x with Some f => addto T (S (val_depth x)) f | None => None end) l)
+          (oconcat (fun x => match field_of_val x with Some f => addto T (S (val_depth v)) f | None => None end) l)
     | _ => None
     end
   else exp_typed t k v.
@@ -234,6 +235,7 @@ Fixpoint self_equal (v : val) : bool :=
   | VPtr u | VWrap _ u => self_equal u
   | VSlice a l => negb (a =? 0) || forallb self_equal l
   | VFld _ _ _ _ x => self_equal x
+  | VCalls _ => false                       (* not a Go value *)
   | _ => true
   end.
 (* which parts of a constructor's input end up as a DeepEqual-compared payload *)
@@ -244,6 +246,22 @@ Fixpoint payload_self (t : gty) (v : val) {struct t} : bool :=
   | TSlice t', VSlice a l => negb (a =? 0) || forallb (payload_self t') l
   | _, _ => true
   end.
+
+(* what the constructors put into Field.Interface, per Equals class: the facts Equals relies on *)
+Definition fwfb (f : field) : bool :=
+  match eq_class T f with
+  | QBytes => match f_ifc f with VBytes _ _ => true | _ => false end
+  | QComplexBits =>
+      match rassoc (f_ty f) (t_ftypes T), f_ifc f with
+      | Some ft, VC128 _ _ => bytes_eqb ft ($"Complex128Type")
+      | Some ft, VC64 _ _ => bytes_eqb ft ($"Complex64Type")
+      | _, _ => false
+      end
+  | QDeep => true
+  | QDefault => match f_ifc f with VNil | VLoc _ | VTime _ => true | _ => false end
+  end.
+Definition fself (f : field) : bool :=
+  match eq_class T f with QDeep => self_equal (f_ifc f) | _ => true end.
 
 (* ==================== wire ==================== *)
 Definition ss (b : bytes) : name := b.
